@@ -99,7 +99,9 @@ def recase_stmt(ddl, rnd):
     return " ".join(out)
 
 
-SEQ_NAMES = [(None, "sq{n}"), (None, '"Sq{n}"'), (None, '"ticket.no{n}"'), ("s1", "sq{n}"), ('"app.v2"', '"orders.id_seq{n}"'), ("S1", "[sq{n}]")]
+SEQ_NAMES = [(None, "sq{n}"), (None, '"Sq{n}"'), (None, '"ticket.no{n}"'), ("s1", "sq{n}"), ('"app.v2"', '"orders.id_seq{n}"'), ("S1", "[sq{n}]"),
+             # an unquoted name spelled like an option word, after the schema dot
+             ("dev", "start"), ("app", "Order"), ("s1", "cache"), ("s1", "no"), ("S1", "increment"), ("s1", "MINVALUE"), ("s1", "noorder"), ("s1", "maxvalue"), ("s1", "by"), ("s1", "with")]
 
 
 def tla_kinds(keys):
